@@ -59,7 +59,7 @@ const FEATURES: &[&str] = &["feature1", "feature2", "feature3", "Feature1", "fea
 pub const E_BASE: i64 = 1_709_164_800; // 2024-02-29T00:00:00Z
 
 pub fn expiries() -> [i64; 4] {
-    [E_BASE, E_BASE + 1, E_BASE + 86_400, E_BASE + 86_400 * 307]
+    [E_BASE, E_BASE + 1, E_BASE + 90_000, E_BASE + 86_400 * 307]
 }
 
 pub fn generate(seed: u64) -> C19Scn {
@@ -117,13 +117,23 @@ pub fn generate(seed: u64) -> C19Scn {
         2 => (e[0] - 1, 999_999_999),
         _ => (e[0], 0),
     };
-    let period: i64 = *rng.pick(&[1, 60, 3_600, 86_400, 86_400 * 7, 86_400 * 30]);
+    let period: i64 = *rng.pick(&[1, 1, 60, 3_600, 43_200, 86_400 * 20]);
     let mut env = gen_env(&mut rng);
     let mut lost_pending = false;
     while events.len() < n_events {
         let r = rng.below(20);
-        if r < 3 {
-            events.push(Event::ConfigGrows { name: rng.pick(FEATURES).to_string() });
+        if r < 4 {
+            let used: Vec<String> = doc
+                .elems()
+                .iter()
+                .filter(|e| e.kind == Kind::Rm)
+                .filter_map(|e| match &e.name {
+                    Some(AttrVal::Val(n)) => Some(n.clone()),
+                    _ => None,
+                })
+                .collect();
+            let name = if !used.is_empty() && rng.chance(4, 5) { rng.pick(&used).clone() } else { rng.pick(FEATURES).to_string() };
+            events.push(Event::ConfigGrows { name });
             continue;
         }
         // advance time
@@ -132,7 +142,7 @@ pub fn generate(seed: u64) -> C19Scn {
             0 | 1 => {
                 label = "dup"; // at-least-once delivery: same instant again
             }
-            2 | 3 | 4 => {
+            2 | 3 | 4 | 7 | 8 => {
                 // land on the boundary lattice of the next expiry
                 let next = e.iter().copied().find(|x| *x > t.0).unwrap_or(t.0 + period);
                 let cand = [(next - 1, 0), (next - 1, 999_999_999), (next, 0), (next, 1), (next + 1, 0)];
@@ -394,24 +404,25 @@ pub fn run(scn: &C19Scn, stats: &mut RunStats) -> Option<Violation> {
                     last_committed_removed = false;
                 }
                 let cands = candidate_instants(t, &out);
-                let mut matched = false;
-                let mut last_ref = String::new();
+                // distinct one-shot results over the envelope of possible "now" values
+                let mut refs: Vec<String> = Vec::new();
                 for c in &cands {
-                    let one_shot = match lib_call(&orig, &scn.doc, &scn.offset, *c, &targets, Mode::Clean, false) {
-                        Ok(r) => r,
+                    match lib_call(&orig, &scn.doc, &scn.offset, *c, &targets, Mode::Clean, false) {
+                        Ok(r) => {
+                            if !refs.contains(&r) {
+                                refs.push(r);
+                            }
+                        }
                         Err(_) => {
                             stats.unevaluable = true;
                             stats.bump("unevaluable_reference_panicked");
                             return None;
                         }
-                    };
-                    if strip_ws(&one_shot) == strip_ws(&after) {
-                        matched = true;
-                        break;
                     }
-                    last_ref = one_shot;
                 }
+                let matched = refs.iter().any(|r| strip_ws(r) == strip_ws(&after));
                 if !matched {
+                    let last_ref = refs.last().cloned().unwrap_or_default();
                     let got: BTreeSet<u32> = scn.doc.surviving_ids(&after).into_iter().collect();
                     let want: BTreeSet<u32> = scn.doc.surviving_ids(&last_ref).into_iter().collect();
                     let stranded: BTreeSet<u32> = got.difference(&want).copied().collect();
@@ -435,10 +446,12 @@ pub fn run(scn: &C19Scn, stats: &mut RunStats) -> Option<Violation> {
                     );
                 }
                 // --- I1: an immediate duplicate with the same configuration is a no-op ---
-                if cands.len() == 1 {
+                if refs.len() == 1 {
                     let mut fs2 = fs.clone();
                     let mut t2 = t.clone();
                     t2.io = IoPlan::default();
+                    // same configuration: the (unambiguous) time and the same targets
+                    t2.now = *cands.last().unwrap();
                     t2.time = match &t.time {
                         TickTime::Clock { .. } => TickTime::Clock { tick_ns: 0 },
                         x => x.clone(),
